@@ -18,6 +18,7 @@ tested samples in `_omitted_data` / `_testing_data`.
 import contextlib
 import copy
 import io
+import itertools
 import json
 import re
 import time
@@ -172,9 +173,44 @@ def dy(r, lo, hi, bits):
     return r.randint(int(np.ceil(lo * n)), int(np.floor(hi * n))) / n
 
 
+def gen_intgrid_case(ctx):
+    """integer-valued features 0..16 (value 8 = exactly the centre of the learned range = scaled coordinate 0.5, a grid
+    line of every component grid), standard learning with levels 3..5 so that the scheme contains component grids with
+    >= 200 points (the per-point interpolation branch); later data sit on the grid lines 0.5 / 0.25 / 0.75 as well"""
+    r = ctx.rng
+    ncls = r.choice([2, 3, 3])
+    centers = r.sample([[8, 4], [8, 12], [3, 8], [12, 8], [4, 4], [12, 12]], ncls)
+    data = [[0.0, 0.0, 0], [16.0, 16.0, 1 % ncls]]
+    for i in range(r.randint(45, 80)):
+        c = i % ncls
+        data.append([float(min(16, max(0, centers[c][d] + r.randint(-3, 3)))) for d in range(2)] + [c])
+    case = {"stream": "learned", "family": "intgrid", "dim": 2, "data": data, "range": None, "p": r.choice([1.0, 0.75, 0.5]),
+            "even": r.random() < 0.5, "shuffle": None,
+            "learn": {"kind": "std", "masslumping": True, "lambd": r.choice([0.0, 0.0, 0.01]), "lmin": 3, "lmax": 5,
+                      "one_vs_others": False},
+            "ops": [], "reeval_learning": r.random() < 0.5}
+    vals = [8.0, 8.0, 8.0, 4.0, 12.0, 2.0, 14.0, 6.0, 10.0]
+    for _ in range(r.randint(2, 3)):
+        rows = []
+        for _ in range(r.randint(6, 12)):
+            x = r.random()
+            if x < 0.4:
+                p = [r.choice(vals), r.randint(0, 32) / 2.0]
+            elif x < 0.8:
+                p = [r.randint(0, 32) / 2.0, r.choice(vals)]
+            else:
+                p = [r.randint(0, 256) / 16.0, r.randint(0, 256) / 16.0]
+            rows.append(p + [r.choice(list(range(ncls)) + [-1])])
+        case["ops"].append({"op": r.choice(["call", "test"]), "mode": "gridline", "data": rows, "pre": None,
+                            "print_removed": True, "reeval": True})
+    return case
+
+
 def gen_case(ctx, k_case):
     r = ctx.rng
     thorough = ctx.tier == "thorough"
+    if k_case < 2 or r.random() < 0.04:
+        return gen_intgrid_case(ctx)
     stream = "learned" if r.random() < 0.45 else "scripted"
     dim = r.choice([2] * 12 + [3, 3, 1])
     ncls = r.choice([2, 2, 3, 3, 4])
@@ -508,6 +544,9 @@ class Runner:
                 self.viol("class-is-argmax", {"op": "learning", "mode": "testing-part", "pre": False, "dim": dim},
                           {"position": p, "densities": row, "class": int(c), "expected": j})
                 break
+        if len(clf.get_calculated_classes_testset()) == len(iT):
+            self.independent_class_check([p for p, _ in iT], list(clf.get_calculated_classes_testset()),
+                                         {"op": "learning", "mode": "testing-part", "pre": False, "dim": dim})
         if len(clf.get_calculated_classes_testset()) != len(iT):
             self.viol("stored-classes-count", {}, {"classes": len(clf.get_calculated_classes_testset()), "testing": len(iT)})
         self.history = []      # (op, raw rows, kept indices, classes)
@@ -594,6 +633,52 @@ class Runner:
         if self.scripted is not None and any(s.boundary_close(pos_float) for s in self.scripted):
             amb = True
         return j, amb, row
+
+    def independent_rows(self, pts):
+        """densities recomputed WITHOUT the implementation's interpolation routines: for every class the combination
+        sum_g c_g sum_i alpha_{g,i} phi_{g,i}(x) over the stored surpluses of every component grid with plain nodal hat
+        functions (regular grids without boundary points: nodes i / 2^l, i = 1 .. 2^l - 1, first dimension slowest).
+        Only for standard (non-adaptive) learning; returns None otherwise."""
+        if self.case["learn"]["kind"] != "std":
+            return None
+        pts = np.asarray(pts, dtype=float)
+        cols = []
+        for combi, op in zip(*self.clf.get_density_estimation_results()):
+            if getattr(op.grid, "boundary", True):
+                return None
+            res = np.zeros(len(pts))
+            for cg in combi.scheme:
+                lvl = np.asarray(cg.levelvector, dtype=int)
+                alphas = np.asarray(op.surpluses[tuple(cg.levelvector)], dtype=float).flatten()
+                idx = np.array(list(itertools.product(*[range(1, 2 ** int(l)) for l in lvl])), dtype=float)
+                if len(idx) != len(alphas):
+                    return None
+                phi = np.prod(np.maximum(0.0, 1.0 - np.abs(pts[:, None, :] * (2.0 ** lvl)[None, None, :] - idx[None, :, :])), axis=2)
+                res += cg.coefficient * (phi @ alphas)
+            cols.append(res)
+        return [[float(col[i]) for col in cols] for i in range(len(pts))]
+
+    def independent_class_check(self, positions, classes, tags):
+        """the class assigned at each (implementation) position must be the class of the first maximum of the independently
+        recomputed densities; arg-max decided by less than 1e-7 (relative) is ambiguous"""
+        rows = self.independent_rows(positions) if len(positions) else None
+        if rows is None:
+            return
+        for p, c, row in zip(positions, classes, rows):
+            m = max(row)
+            j = row.index(m)
+            scale = max(1.0, max(abs(v) for v in row))
+            if any(i != j and abs(v - m) <= 1e-7 * scale for i, v in enumerate(row)):
+                self.ctx.count("ambiguous_near_tie_independent")
+                continue
+            self.ctx.count("independent_density_checks")
+            if not self.class_ok(int(c), j, tags):
+                impl = self.dens_rows(np.array([p]))[0]
+                self.viol("class-is-argmax-independent-density", dict(tags or {}),
+                          {"position": [float(v) for v in p], "class": int(c), "expected_index": j,
+                           "expected_label": self.class_labels[j] if j < len(self.class_labels) else None,
+                           "densities_from_surpluses_and_nodal_hats": row, "densities_from_classificators": impl})
+                return
 
     def class_ok(self, c, j, tags=None):
         """`c` is the class the implementation assigned, `j` the index of the first maximal density.  The property asks for
@@ -870,6 +955,7 @@ class Runner:
             self.viol("classified-count", tags, {"classified": len(classes_now), "expected": len(used)})
             return
         kept_pos = {i: kept_impl[n][0] for n, i in enumerate(exp_kept)}
+        self.independent_class_check([kept_pos[i] for i in used], classes_now, tags)
         for i, c in zip(used, classes_now):
             if not op.get("reeval", True):
                 break
@@ -968,6 +1054,8 @@ def run(ctx):
         case = gen_case(ctx, k)
         rn = run_case(ctx, drv, case)
         ctx.count("stream_" + case["stream"])
+        if case.get("family"):
+            ctx.count("family_" + case["family"])
         ctx.count("dim_%d" % case["dim"])
         ctx.case(case, nontrivial=rn.nontrivial, sample={k2: (v if k2 != "data" else v[:3]) for k2, v in case.items()} if k < 2 else None)
         k += 1
